@@ -413,9 +413,29 @@ Theorem C06_head_rewind_keeping_count_refuted :
 Proof. exact head_rewind_keeping_count_refuted. Qed.
 Print Assumptions C06_head_rewind_keeping_count_refuted.
 
-(* ---- known defect cached_result_rewritten_before_two_pass ----
-   Full statement (FALSE for the code, see _refuted): with a row-wise command f between a
-   bottleneck that hands out its kept IQR (tail, sort) and a two-pass command t the chain gives
+(* a row-rewriting command between tail and the two-pass command is applied ONCE (tail gives away
+   copies of the result it keeps; before that fix: alias_two_pass below), and stats without BY in
+   front of a two-pass command gives its aggregate, not twice that *)
+Theorem C06_tail_rowwise_then_two_pass : forall n f t eof_with bs,
+  stream_rows (build_chain (src_stream eof_with bs)
+                 [RStage (tail_proc n) bottleneck_flags; RStage (rowwise_proc f) streaming_flags;
+                  RStage (twopass_proc t) twopass_flags])
+  = Some (tp_sem t (flat_map f (rev (lastN n (concat bs))))).
+Proof. exact tail_rowwise_then_two_pass. Qed.
+Print Assumptions C06_tail_rowwise_then_two_pass.
+
+Theorem C06_stats_without_by_then_two_pass : forall vf countf sumf t eof_with bs,
+  stream_rows (build_chain (src_stream eof_with bs)
+                 [RStage (agg_proc (gstats_cmd [] vf countf sumf)) bottleneck_flags;
+                  RStage (twopass_proc t) twopass_flags])
+  = Some (tp_sem t (run (gstats_cmd [] vf countf sumf) [concat bs])).
+Proof. exact stats_noby_then_two_pass. Qed.
+Print Assumptions C06_stats_without_by_then_two_pass.
+
+(* ---- known defect sort_result_rewritten_before_two_pass (tail: repaired, class
+   cached_result_rewritten_before_two_pass) ----
+   Full statement (FALSE for the code, see _refuted): with a row-wise command f between sort,
+   which hands out the IQR it keeps, and a two-pass command t the chain gives
    tp_sem t (map f rows).  The IQR is the same object in both passes and f writes into it:
    [alias_two_pass].  Exact guard: f is idempotent. *)
 Theorem C06_kept_result_rewritten_guarded : forall f t rows, (forall r, f (f r) = f r) ->
@@ -423,7 +443,7 @@ Theorem C06_kept_result_rewritten_guarded : forall f t rows, (forall r, f (f r) 
 Proof. exact alias_two_pass_guarded. Qed.
 Print Assumptions C06_kept_result_rewritten_guarded.
 
-(* tail | eval v=v+1 | fillnull value=0 over one row v=0: v=2 instead of v=1 *)
+(* sort v | eval v=v+1 | fillnull value=0 over one row v=0: v=2 instead of v=1 *)
 Theorem C06_kept_result_rewritten_refuted :
   alias_two_pass incr_v fill0 [[(fvv, VNum 0)]] = [[(fvv, VNum 2)]]
   /\ tp_sem fill0 (map incr_v [[(fvv, VNum 0)]]) = [[(fvv, VNum 1)]].
@@ -435,24 +455,19 @@ Example C06_kept_result_rewritten_guard_satisfiable :
   = tp_sem fill0 (map (fun r => set_field r fvv (VNum 7)) [[(fvv, VNum 0)]]).
 Proof. exact alias_two_pass_guard_satisfiable. Qed.
 
-(* ---- known defect stats_without_by_doubled_before_two_pass ----
-   Full statement (FALSE for the code): stats without BY in front of a two-pass command t gives
-   tp_sem t (run c [rows]).  Every extraction of the result merges the collected statistics once
-   more: [stats_noby_two_pass].  Exact guard: the aggregate of the input taken twice equals the
-   aggregate of the input (max, min; not count, sum, avg). *)
-Theorem C06_stats_without_by_extracted_twice_guarded : forall c t rows,
+(* ---- BEFORE the fix "stats without BY merges its statistics once" (documentation) ----
+   every extraction of the result merged the collected statistics once more
+   ([stats_noby_two_pass]); it agreed with the meaning exactly when the aggregate of the input
+   taken twice equals the aggregate of the input (max, min; not count, sum, avg). *)
+Theorem C06_stats_without_by_prefix_extracted_twice_guarded : forall c t rows,
   run c [rows ++ rows] = run c [rows] -> stats_noby_two_pass c t rows = tp_sem t (run c [rows]).
 Proof. exact stats_noby_two_pass_guarded. Qed.
-Print Assumptions C06_stats_without_by_extracted_twice_guarded.
+Print Assumptions C06_stats_without_by_prefix_extracted_twice_guarded.
 
-(* stats count, sum(v) | fillnull value=0 over one row v=3: count 2, sum 6 *)
-Theorem C06_stats_without_by_extracted_twice_refuted :
+(* stats count, sum(v) | fillnull value=0 over one row v=3 gave count 2, sum 6 *)
+Theorem C06_stats_without_by_prefix_extracted_twice_witness :
   stats_noby_two_pass (gstats_cmd [] fvv fcnt fsum) fill0 [[(fvv, VNum 3)]]
     = [[(fcnt, VNum 2); (fsum, VNum 6)]]
   /\ tp_sem fill0 (run (gstats_cmd [] fvv fcnt fsum) [[[(fvv, VNum 3)]]]) = [[(fcnt, VNum 1); (fsum, VNum 3)]].
 Proof. exact stats_noby_two_pass_refuted. Qed.
-Print Assumptions C06_stats_without_by_extracted_twice_refuted.
-
-Example C06_stats_without_by_guard_satisfiable :
-  run (gstats_cmd [] fvv fcnt fsum) [[] ++ []] = run (gstats_cmd [] fvv fcnt fsum) [[]].
-Proof. exact stats_noby_guard_satisfiable. Qed.
+Print Assumptions C06_stats_without_by_prefix_extracted_twice_witness.
